@@ -50,6 +50,8 @@ def run(tier):
                     nh += 1
     chk.cov["hard_states"] = {"cases": nh, "longest_rejection_run": maxtries}
     vf.exec_and_validate(chk, binpath, "rand", "TV_Rand", cases, jvms=8, what="observation")
+    # also in a plain release build (no overflow checks: integer arithmetic wraps instead of panicking)
+    vf.exec_and_validate(chk, vf.build_harness("plain"), "rand", "TV_Rand", cases, jvms=8, what="observation (plain release build)")
     chk.cov["distinct_nontrivial"] = chk.cov["traces_validated_against_impl"]
     chk.cov["rule"] = ("TLC: order of the step matrix over GF(2) (T^(2^64)=T, T^((2^64-1)/p)#I for the 7 prime factors, "
                        "explicit inverse, negative control) + exhaustive orbit of a 16-bit analogue; real code: next_bits on "
